@@ -94,6 +94,13 @@ def gen_case(rng, tier, idx):
             p["relativeTimes"] = True
         cfg["P%d" % j] = p
         cfg["simulation"]["sessions"][si].setdefault("events", []).append("P%d" % j)
+    if rng.random() < 0.3:
+        # a rule that switches execution off in the middle of a round with several fills
+        cfg["HALT"] = {"class": "TradingHaltRule", "targetMarkets": rng.sample(mk, rng.randint(1, len(mk))),
+                       "triggerChangeRate": rng.choice([0.0, 0.0, 0.005]), "haltingTimeLength": rng.choice([1, 2])}
+        cfg["simulation"]["sessions"][rng.randrange(ns)].setdefault("events", []).insert(0, "HALT")
+        for s_ in cfg["simulation"]["sessions"]:
+            s_["maxNormalOrders"] = max(s_.get("maxNormalOrders", 1), 2)
     from ..runnerdrive import sprinkle_empty_event_lists
 
     sprinkle_empty_event_lists(rng, cfg)
